@@ -48,6 +48,29 @@ GD = {
     "SHIFT": "lambda l, k: ite(k == 1, 1, ite((N - l) / (k - 1) < 1, 1, (N - l) / (k - 1)))",
 }
 
+# C04: the loop body of ltf_plan as a function of the current frequency (ghost replay), in opaque stages so that
+# each monotonicity step sees only the definition it needs
+GD.update(
+    {
+        "FRES1": {"opaque": "lambda f: ite(f * logfact >= freslim, f * logfact, ite(sqrt(freslim * (f * logfact)) > fresmin, sqrt(freslim * (f * logfact)), fresmin))", "reveal": ["C04.replay", "C04.m1", "C04.r1"]},
+        "FRES2": {"opaque": "lambda f: ite(f / FRES1(f) < bmin, f / bmin, FRES1(f))", "reveal": ["C04.replay", "C04.m2", "C04.r2"]},
+        "LEN0": {"opaque": "lambda f: rhu(fs / FRES2(f))", "reveal": ["C04.replay", "C04.m3", "C04.r3"]},
+        "LEN1": {"opaque": "lambda f: ite(LEN0(f) > N, N, ite(LEN0(f) < Lmin, Lmin, LEN0(f)))", "reveal": ["C04.replay", "C04.m4", "C04.r4"]},
+        "LEN": {"opaque": "lambda f: ite(NAVG(LEN1(f)) == 1, N, LEN1(f))", "reveal": ["C04.replay", "C04.m6", "C04.r5"]},
+    }
+)
+
+# C04 log-spaced regime: the property's own constants (not the code's variables)
+GD.update(
+    {
+        "CLOG": "power(N / 2, 1 / Jdes) - 1",
+        "FLIM": "fs / N * (1 + (1 - olap) * (Kdes - 1))",
+        # the desired averaging is attainable (ideal resolution f*CLOG at least the Kdes-limit) and no clamp is active:
+        # bin number at least bmin, Lmin <= ideal length <= N, more than one segment
+        "REGIME": "lambda f: f * CLOG >= FLIM and f / (f * CLOG) >= bmin and rhu(fs / (f * CLOG)) <= N and rhu(fs / (f * CLOG)) >= Lmin and NAVG(rhu(fs / (f * CLOG))) != 1",
+    }
+)
+
 # ---- the property's per-bin statements ------------------------------------------------------------
 # (i is an arbitrary bin; D, L, K, navg, f, r, b, O are the fields of the returned plan)
 BIN_C02 = {
@@ -70,6 +93,29 @@ BIN_C03 = {
     "C03.strictly_increasing": "implies(i + 1 < result['nf'], result['f'][i+1] > result['f'][i])",
     # no bin below bmin by more than the rounding of L to an integer allows: b*(1 + 1/(2L)) >= bmin
     "C03.bmin_up_to_rounding_of_L": "result['b'][i] + result['f'][i] / (2*fs) >= bmin",
+}
+BIN_C04 = {
+    "C04.segment_length_never_increases": "implies(i + 1 < result['nf'], result['L'][i] >= result['L'][i+1])",
+    "C04.averages_never_decrease": "implies(i + 1 < result['nf'], result['navg'][i] <= result['navg'][i+1] and result['K'][i] <= result['K'][i+1])",
+    # the integer nearest to 1+(N-L)/((1-olap)L), capped at the N-L+1 distinct positions
+    "C04.navg_nearest_integer_capped": "result['navg'][i] == NAVG(result['L'][i])",
+    # each start within half a sample of its ideal position m*(N-L)/(K-1)
+    # log spacing: r/f = fs/(L f) equals the constant CLOG up to the rounding of L to an integer
+    # (cut lemmas: in the regime every stage of the replay is the ideal log-spaced value)
+    "lemma.C04.r1": "implies(REGIME(result['f'][i]), FRES1(result['f'][i]) == result['f'][i] * CLOG and result['f'][i] * CLOG > 0)",
+    "lemma.C04.r2": "implies(REGIME(result['f'][i]), FRES2(result['f'][i]) == result['f'][i] * CLOG)",
+    "lemma.C04.r3": "implies(REGIME(result['f'][i]), LEN0(result['f'][i]) == rhu(fs / (result['f'][i] * CLOG)))",
+    "lemma.C04.r4": "implies(REGIME(result['f'][i]), LEN1(result['f'][i]) == rhu(fs / (result['f'][i] * CLOG)))",
+    "lemma.C04.r5": "implies(REGIME(result['f'][i]), LEN(result['f'][i]) == rhu(fs / (result['f'][i] * CLOG)))",
+    "C04.regime_log_spacing": "implies(REGIME(result['f'][i]), result['L'][i] == rhu(fs / (result['f'][i] * CLOG)) and result['L'][i] - fs / (result['f'][i] * CLOG) <= 1/2 and fs / (result['f'][i] * CLOG) - result['L'][i] < 1/2)",
+    # ... and at least Kdes averages there (when L was not rounded up and Kdes positions exist)
+    "lemma.C04.regime_ideal_length": "implies(REGIME(result['f'][i]), result['f'][i] * CLOG > 0 and fs / (result['f'][i] * CLOG) * (1 + (1 - olap) * (Kdes - 1)) <= N)",
+    "lemma.C04.regime_ideal_count": "implies(REGIME(result['f'][i]) and result['L'][i] <= fs / (result['f'][i] * CLOG), (N - result['L'][i]) >= (Kdes - 1) * ((1 - olap) * result['L'][i]))",
+    "lemma.C04.regime_count_before_rounding": "implies(REGIME(result['f'][i]) and result['L'][i] <= fs / (result['f'][i] * CLOG), ((N - result['L'][i]) / (1 - olap)) / result['L'][i] + 1 >= Kdes)",
+    "C04.regime_at_least_Kdes": "implies(REGIME(result['f'][i]) and result['L'][i] <= fs / (result['f'][i] * CLOG) and N - result['L'][i] + 1 >= Kdes, result['K'][i] >= Kdes)",
+    # the reported overlap is the realised mean overlap of consecutive starts
+    "C04.reported_overlap_is_realised_mean": "result['O'][i] == ite(result['K'][i] > 1, Sum(0, result['K'][i] - 1, lambda m: (result['L'][i] - (result['D'][i][m+1] - result['D'][i][m])) / result['L'][i]) / (result['K'][i] - 1), 0)",
+    "C04.starts_evenly_spread": "forall(0, len(result['D'][i]), lambda m: result['D'][i][m] - m * (N - result['L'][i]) / (result['K'][i] - 1) <= 1/2 and m * (N - result['L'][i]) / (result['K'][i] - 1) - result['D'][i][m] <= 1/2) if result['K'][i] > 1 else result['D'][i][0] == 0",
 }
 # proof hints (cut lemmas): each is proved first, then available to the clauses after it
 D_LEMMAS = {
@@ -114,7 +160,27 @@ LTF_LOOPS = {
             "record_long_enough": "bmin * fs / fi <= N",
             "length_covers_bmin": "dftlen + 1/2 >= bmin * fs / fi",
             "bmin_slack": "fi * dftlen / fs + fi / (2*fs) >= bmin",
-
+            # C04: the appended length is the ghost replay of the body at the appended frequency ...
+            "C04.replay": "L_arr[len(L_arr)-1] == LEN(f_arr[len(f_arr)-1])",
+            # ... and the replay is antitone in the frequency (A = previous, B = this frequency)
+            "C04.m0": "implies(len(f_arr) >= 2, 0 < f_arr[len(f_arr)-2] and f_arr[len(f_arr)-2] <= f_arr[len(f_arr)-1] and logfact > 0 and freslim >= fresmin and fresmin > 0)",
+            "C04.m1": "implies(len(f_arr) >= 2, FRES1(f_arr[len(f_arr)-2]) <= FRES1(f_arr[len(f_arr)-1]) and FRES1(f_arr[len(f_arr)-2]) > 0)",
+            "C04.m2": "implies(len(f_arr) >= 2, FRES2(f_arr[len(f_arr)-2]) <= FRES2(f_arr[len(f_arr)-1]) and FRES2(f_arr[len(f_arr)-2]) > 0)",
+            "C04.m3": "implies(len(f_arr) >= 2, LEN0(f_arr[len(f_arr)-2]) >= LEN0(f_arr[len(f_arr)-1]))",
+            "C04.m4": "implies(len(f_arr) >= 2, LEN1(f_arr[len(f_arr)-2]) >= LEN1(f_arr[len(f_arr)-1]) and 1 <= LEN1(f_arr[len(f_arr)-1]) and LEN1(f_arr[len(f_arr)-2]) <= N)",
+            "C04.m5": "implies(len(f_arr) >= 2, NAVG(LEN1(f_arr[len(f_arr)-2])) <= NAVG(LEN1(f_arr[len(f_arr)-1])) and NAVG(LEN1(f_arr[len(f_arr)-2])) >= 1)",
+            "C04.m6": "implies(len(f_arr) >= 2, LEN(f_arr[len(f_arr)-2]) >= LEN(f_arr[len(f_arr)-1]) and 1 <= LEN(f_arr[len(f_arr)-1]) and LEN(f_arr[len(f_arr)-2]) <= N)",
+            "C04.m7": "implies(len(f_arr) >= 2, NAVG(LEN(f_arr[len(f_arr)-2])) <= NAVG(LEN(f_arr[len(f_arr)-1])))",
+        },
+        # proof by citation: each monotonicity step uses only the facts it names (plus the revealed definition)
+        lemma_from={
+            "C04.m1": ["pre", "C04.m0"],
+            "C04.m2": ["pre", "C04.m0", "C04.m1"],
+            "C04.m3": ["pre", "C04.m0", "C04.m2"],
+            "C04.m4": ["pre", "C04.m3"],
+            "C04.m5": ["pre", "C04.m4"],
+            "C04.m6": ["pre", "C04.m4", "C04.m5"],
+            "C04.m7": ["pre", "C04.m6"],
         },
         inv={
             "lens": "len(fres_arr) == len(f_arr) and len(b_arr) == len(f_arr) and len(L_arr) == len(f_arr) and len(K_arr) == len(f_arr)",
@@ -126,6 +192,8 @@ LTF_LOOPS = {
             " and K_arr[j] == NAVG(L_arr[j]) and implies(K_arr[j] == 1, L_arr[j] == N)"
             " and f_arr[j] * L_arr[j] / fs + f_arr[j] / (2*fs) >= bmin)",
             "steps": "forall(0, len(f_arr) - 1, lambda j: f_arr[j+1] == f_arr[j] + fres_arr[j])",
+            "C04.replayed": "forall(0, len(f_arr), lambda j: L_arr[j] == LEN(f_arr[j]))",
+            "C04.monotone": "forall(0, len(f_arr) - 1, lambda j: L_arr[j] >= L_arr[j+1] and K_arr[j] <= K_arr[j+1])",
         },
     ),
     # for j in range(nf): averages and starts
@@ -154,7 +222,10 @@ LTF_LOOPS = {
     "3": dict(
         label="overlaps",
         types={"O_arr": "list[real]"},
-        inv={"lens": "len(O_arr) == j"},
+        inv={
+            "lens": "len(O_arr) == j",
+            "C04.realised": "forall(0, j, lambda q: O_arr[q] == ite(len(D_arr[q]) > 1, Sum(0, len(D_arr[q]) - 1, lambda m: (L_arr[q] - (D_arr[q][m+1] - D_arr[q][m])) / L_arr[q]) / (len(D_arr[q]) - 1), 0))",
+        },
     ),
 }
 
@@ -181,23 +252,42 @@ UNITS = []
 
 ARG_GHOSTS = {"N": ("int", "args['N']"), "fs": ("real", "args['fs']"), "olap": ("real", "args['olap']"), "bmin": ("real", "args['bmin']"), "Lmin": ("int", "args['Lmin']"), "Jdes": ("int", "args['Jdes']"), "Kdes": ("int", "args['Kdes']")}
 CALL_ENS = dict(PLAN_POST)
-for _l, _t in {**BIN_C02, **BIN_C03}.items():
+for _l, _t in {**BIN_C02, **BIN_C03, **BIN_C04}.items():
     CALL_ENS[_l] = f"forall(0, result['nf'], lambda i: {_t})"
+CALL_ENS_23 = {k: v for k, v in CALL_ENS.items() if not k.startswith("C04.")}
 
 UNITS.append(
     Unit(
         id="schedulers.ltf_plan",
         module=M,
         func="ltf_plan",
-        props=["C02", "C03"],
+        props=["C02", "C03", "C04"],
         setup=args_setup(),
         ghosts=dict(ARG_GHOSTS),
         returns=plan_result,
         requires=LTF_REQ,
         loops=LTF_LOOPS,
-        ensures={**PLAN_POST, **D_LEMMAS, **BIN_C02, **BIN_C03},
+        ensures={**PLAN_POST, **D_LEMMAS, **BIN_C02, **BIN_C03, **BIN_C04},
         post_hook=bin_ghost,
-        opts={"ghost_defs": GD, "callee": True, "call_ensures": CALL_ENS},
+        opts={
+            "ghost_defs": GD,
+            "callee": True,
+            "call_ensures": CALL_ENS,
+            "lemma_from": {
+                "lemma.ideal_positions_in_range": ["pre", "inv", "lemma.closed_form", "lemma.navg_capped", "lemma.shift_at_least_one"],
+                "C02.starts_in_bounds": ["pre", "lemma.closed_form", "lemma.ideal_positions_in_range", "lemma.navg_capped", "lemma.shift_at_least_one"],
+                "C02.starts_strictly_increasing": ["pre", "lemma.closed_form", "lemma.ideal_positions_in_range", "lemma.navg_capped", "lemma.shift_at_least_one"],
+                "C02.last_segment_ends_at_N": ["pre", "lemma.closed_form", "lemma.ideal_positions_in_range", "lemma.navg_capped", "lemma.shift_at_least_one"],
+                "lemma.C04.r1": ["pre"],
+                "lemma.C04.r2": ["pre", "lemma.C04.r1"],
+                "lemma.C04.r3": ["pre", "lemma.C04.r2"],
+                "lemma.C04.r4": ["pre", "lemma.C04.r3"],
+                "lemma.C04.r5": ["pre", "lemma.C04.r4"],
+                "lemma.C04.regime_ideal_length": ["pre", "lemma.C04.r1"],
+                "lemma.C04.regime_ideal_count": ["pre", "lemma.C04.regime_ideal_length", "lemma.navg_capped", "C02.L_range"],
+                "lemma.C04.regime_count_before_rounding": ["pre", "lemma.C04.regime_ideal_count", "C02.L_range"],
+            },
+        },
         raises={},
     )
 )
@@ -209,11 +299,11 @@ UNITS.append(
         id="schedulers.lpsd_plan",
         module=M,
         func="lpsd_plan",
-        props=["C02", "C03"],
+        props=["C02", "C03", "C04"],
         setup=args_setup(keys=("N", "fs", "olap", "Jdes", "Kdes")),
         ghosts={**{k: v for k, v in ARG_GHOSTS.items() if k not in ("bmin", "Lmin")}, "bmin": ("real", "1.0"), "Lmin": ("int", "1")},
         requires=[c for c in ADMISSIBLE if "bmin" not in c and "Lmin" not in c],
-        ensures={**PLAN_POST, **BIN_C02, **BIN_C03},
+        ensures={**PLAN_POST, **BIN_C02, **BIN_C03, **BIN_C04},
         post_hook=bin_ghost,
         returns=plan_result,
         opts={"ghost_defs": GD, "callee": True, "call_ensures": CALL_ENS},
@@ -292,7 +382,7 @@ UNITS.append(
         ensures={**PLAN_POST, **V_LEMMAS, **BIN_C02, **BIN_C03},
         post_hook=bin_ghost,
         returns=plan_result,
-        opts={"ghost_defs": GD, "callee": True, "call_ensures": CALL_ENS},
+        opts={"ghost_defs": GD, "callee": True, "call_ensures": CALL_ENS_23},
         raises={},
     )
 )
@@ -325,7 +415,7 @@ VEC_LOOPS = {
     ),
 }
 BIN_C03V = {k: v for k, v in BIN_C03.items() if k != "C03.bmin_up_to_rounding_of_L"}
-CALL_ENS_V = {k: v for k, v in CALL_ENS.items() if k != "C03.bmin_up_to_rounding_of_L"}
+CALL_ENS_V = {k: v for k, v in CALL_ENS.items() if k != "C03.bmin_up_to_rounding_of_L" and not k.startswith("C04.")}
 
 UNITS.append(
     Unit(
